@@ -10,7 +10,7 @@ import tempfile
 import numpy as np
 
 from vlib.common import CaseResult, liesel_call, rng_for
-from vlib.enginelab import drive, first_posterior_time, gen_probe_case, stored_times
+from vlib.enginelab import drive, first_posterior_time, gen_probe_case, kid, stored_times
 from vlib.probes import ProbeKernel, total_time
 
 ID = "C19"
@@ -51,24 +51,24 @@ def tables(case):
 def check_log(res, case, log, tabs, t_lo, t_hi, which):
     mon = "error_log_matches_table" if which == "all" else "posterior_error_log_matches_table"
     for ki, tab in enumerate(tabs):
-        kid = f"k{ki}"
+        kid_ = kid(ki)
         res.mon(mon)
         sub = tab[:, t_lo:t_hi]
         mask = np.any(sub != 0, axis=0)
         exp_tr = np.where(mask)[0]
         exp_codes = sub[:, mask]
-        if kid not in log:
-            res.violation("error-log", f"{which}: kernel {kid} missing from the error log", case)
+        if kid_ not in log:
+            res.violation("error-log", f"{which}: kernel {kid_} missing from the error log", case)
             continue
-        kel = log[kid]
+        kel = log[kid_]
         got_tr = np.asarray(kel.transition)
         got_codes = np.asarray(kel.error_codes)
         if not np.array_equal(got_tr, exp_tr) or got_codes.shape != exp_codes.shape or not np.array_equal(got_codes, exp_codes):
-            res.violation("error-log", f"{which} error log of {kid}: transitions {got_tr.tolist()} codes "
+            res.violation("error-log", f"{which} error log of {kid_}: transitions {got_tr.tolist()} codes "
                           f"{got_codes.tolist()}, prescribed table gives transitions {exp_tr.tolist()} codes "
                           f"{exp_codes.tolist()}", case)
-        if kel.kernel_ident != kid:
-            res.violation("error-log", f"kernel ident {kel.kernel_ident} != {kid}", case)
+        if kel.kernel_ident != kid_:
+            res.violation("error-log", f"kernel ident {kel.kernel_ident} != {kid_}", case)
 
 
 def run_case(case):
@@ -110,27 +110,27 @@ def run_case(case):
             summ = gs.Summary(results)
             es = summ.error_summary
             for ki, tab in enumerate(tabs):
-                kid = f"k{ki}"
+                kid_ = kid(ki)
                 res.mon("summary_counts")
                 exp_codes = sorted({int(c) for c in np.unique(tab[:, 1:]) if c != 0})
-                got = es.get(kid, {})
+                got = es.get(kid_, {})
                 if sorted(int(c) for c in got) != exp_codes:
-                    res.violation("summary-codes", f"summary lists codes {sorted(got)} for {kid}, table has {exp_codes}", case)
+                    res.violation("summary-codes", f"summary lists codes {sorted(got)} for {kid_}, table has {exp_codes}", case)
                     continue
                 for code in exp_codes:
                     e = got[code]
                     tot = (tab[:, 1:] == code).sum(axis=1)
                     post = (tab[:, fp:] == code).sum(axis=1)
                     if not np.array_equal(np.asarray(e.count_per_chain), tot):
-                        res.violation("summary-total", f"{kid} code {code}: total per chain {np.asarray(e.count_per_chain).tolist()} "
+                        res.violation("summary-total", f"{kid_} code {code}: total per chain {np.asarray(e.count_per_chain).tolist()} "
                                       f"!= {tot.tolist()}", case)
                     if e.count_per_chain_posterior is None or not np.array_equal(np.asarray(e.count_per_chain_posterior), post):
-                        res.violation("summary-posterior", f"{kid} code {code}: posterior per chain "
+                        res.violation("summary-posterior", f"{kid_} code {code}: posterior per chain "
                                       f"{None if e.count_per_chain_posterior is None else np.asarray(e.count_per_chain_posterior).tolist()} "
                                       f"!= {post.tolist()}", case)
                     res.mon("summary_messages")
                     if e.error_msg != ProbeKernel.error_book[code] or int(e.error_code) != code:
-                        res.violation("summary-message", f"{kid} code {code}: message {e.error_msg!r}, error book says "
+                        res.violation("summary-message", f"{kid_} code {code}: message {e.error_msg!r}, error book says "
                                       f"{ProbeKernel.error_book[code]!r}", case)
             # data frames
             for per_chain in (True, False):
@@ -143,9 +143,9 @@ def run_case(case):
                             cnt = (tab[:, sl] == code).sum(axis=1)
                             if per_chain:
                                 for c in range(C):
-                                    exp_rows[(f"k{ki}", code, ProbeKernel.error_book[code], phase, c)] = int(cnt[c])
+                                    exp_rows[(kid(ki), code, ProbeKernel.error_book[code], phase, c)] = int(cnt[c])
                             else:
-                                exp_rows[(f"k{ki}", code, ProbeKernel.error_book[code], phase)] = int(cnt.sum())
+                                exp_rows[(kid(ki), code, ProbeKernel.error_book[code], phase)] = int(cnt.sum())
                 got_rows = {}
                 if not df.empty:
                     for idx, row in df.iterrows():
